@@ -610,6 +610,10 @@ type c17RerunCase struct {
 	Script     []string `json:"script"` // outcome of execution i: fail | ok | kill; beyond the script: fail
 	WithLog    bool     `json:"withLog"`
 	AtSink     bool     `json:"atSink"` // "fail" is a sink rejection instead of a source error
+	// ExtraTrigger: a second scheduled run of the job arrives right after the first one ended, i.e.
+	// while the retry of the first one is still waiting for its delay. The retry budget is one for
+	// the job: all in all at most 2 + maxRetries executions.
+	ExtraTrigger bool `json:"extraTrigger,omitempty"`
 }
 
 type c17Exec struct {
@@ -736,22 +740,40 @@ func (env *c17Env) rerun(c c17RerunCase) (problem, infra string, inconclusive bo
 	if pan != nil {
 		return fmt.Sprintf("job run panicked: %v", pan), "", false
 	}
+	triggers := 1
+	if c.ExtraTrigger {
+		triggers = 2
+		func() {
+			defer func() { pan = recover() }()
+			j.Run()
+		}()
+		if pan != nil {
+			return fmt.Sprintf("job run panicked: %v", pan), "", false
+		}
+	}
 	count := func() int { src.mu.Lock(); defer src.mu.Unlock(); return len(src.execs) }
+	if c.ExtraTrigger {
+		want = triggers // both scheduled runs have happened; retries, if any, follow within the wait below
+	}
 	deadline := time.Now().Add(3 * time.Second)
 	for count() < want && time.Now().Before(deadline) {
 		time.Sleep(time.Millisecond)
 	}
 	reached := count() >= want
 	// let a surplus execution show up
-	time.Sleep(3*delay + 40*time.Millisecond)
+	time.Sleep(time.Duration(effRetries+3)*delay + 40*time.Millisecond)
 	for k := 0; k < 200 && len(h.Runner.raffle.runningJobs) > 0; k++ {
 		time.Sleep(time.Millisecond)
 	}
 	src.mu.Lock()
 	execs := append([]c17Exec(nil), src.execs...)
 	src.mu.Unlock()
-	if len(execs) > 1+effRetries {
-		return fmt.Sprintf("%d executions, maxRetries=%d allows %d", len(execs), effRetries, 1+effRetries), "", false
+	if len(execs) > triggers+effRetries {
+		return fmt.Sprintf("%d executions after %d scheduled run(s), maxRetries=%d allows %d", len(execs), triggers, effRetries, triggers+effRetries), "", false
+	}
+	if c.ExtraTrigger {
+		// which execution is a retry of which cannot be told apart here: the count is the check
+		return "", "", false
 	}
 	for i := 1; i < len(execs); i++ {
 		prev := execs[i-1]
@@ -817,6 +839,11 @@ func TestVerif_C17_rerun(t *testing.T) {
 		n := rapid.IntRange(0, 5).Draw(t, "scriptLen")
 		for i := 0; i < n; i++ {
 			c.Script = append(c.Script, rapid.SampledFrom([]string{"fail", "fail", "ok", "kill"}).Draw(t, "outcome"))
+		}
+		if rapid.IntRange(0, 3).Draw(t, "extraTrigger") == 0 {
+			c.ExtraTrigger = true
+			c.DelayMs = rapid.IntRange(30, 60).Draw(t, "longDelayMs")
+			c.MaxRetries = rapid.IntRange(0, 2).Draw(t, "fewRetries")
 		}
 		run(c, t.Fatalf)
 	})
